@@ -469,7 +469,8 @@ def _e2_value(law, name, what):
 
 def _e2_reads(tier):
     """read slots before / between the assignments"""
-    return ["-", "C", "S"] if tier == "quick" else ["-", "C", "S", "CS", "SC"]
+    # "W": Walpole_Decomposition() (laws that have one) - a third consumer of the constants besides C and S
+    return ["-", "C", "S", "W"] if tier == "quick" else ["-", "C", "S", "W", "CS", "SC", "WC"]
 
 
 E2_LAST_READS = ["-", "C", "S"]  # slot after the last assignment (the final reads C, S, C follow it anyway)
@@ -961,16 +962,16 @@ def _run_e2(case):
     base_key = {k: case[k] for k in ("law", "dim", "size", "axes") if k in case}
     inplane = size == "3x3"
     a1, a2 = (axes_vectors("canonical") if law == "Isotropic" else law_axes(ax, inplane))
-    reads = _e2_reads(tier)
+    reads = [r for r in _e2_reads(tier) if law != "Anisotropic" or "W" not in r]
     ops = e2_setops(law, tier, size)
     if first == "none":
         histories = [(r0,) for r0 in reads]
     else:
         histories = []
-        for r0, r1 in itertools.product(reads, reads):
+        for r0, r1 in itertools.product([r for r in reads if "W" not in r], reads):  # Walpole is read after an assignment (slots 1, 2) only
             histories.append((r0, first, r1))
             for s2 in ops:
-                for r2 in E2_LAST_READS:
+                for r2 in E2_LAST_READS + (["W"] if "W" in reads else []):
                     histories.append((r0, first, r1, s2, r2))
     v, obs = [], []
     ntr = nstates = pruned = 0
@@ -1003,6 +1004,15 @@ def _run_e2(case):
             for pos, tok in enumerate(h):
                 if pos % 2 == 0:  # read slot
                     for which in (tok if tok != "-" else ""):
+                        if which == "W":
+                            ci, Ei = mat.Walpole_Decomposition()
+                            cf, Ef = _e2_fresh(cur, a1, a2).Walpole_Decomposition()
+                            ew = max(relerr(np.asarray(ci, dtype=float), np.asarray(cf, dtype=float)), relerr(np.asarray(Ei, dtype=float), np.asarray(Ef, dtype=float)))
+                            if ew > 1e-12:
+                                v.append(viol("e2_stale", f"during [{hist_str}] (read slot {pos // 2}) Walpole_Decomposition differs from that of a freshly constructed law "
+                                              f"({law}, {st.mode()}): rel {ew:.3e}", history=hist_str, matrix="Walpole", hetero=_hetero(cur), **base_key))
+                            ntr += 2
+                            continue
                         read(mat, which)
                         ntr += 1
                 else:
